@@ -484,7 +484,10 @@ def check_history(ctx, scen, idx, lines, info=None):
                       lines[:opi + 2] + ['iotrace off', 'closeall', 'snap db'], found=True)
         res['ok'] = False
     if ist != 'ok':
-        ctx.violation(name + '_impl', head + '\nthe runner ended with %s after %d lines' % (ist, len(il)), lines, found=False)
+        # the real crate hangs / crashes on this history: the history IS the failing input (cut after the call that did not return)
+        concrete = ist.split(':')[0] in ('hang', 'crash', 'panic', 'timeout')
+        ctx.violation(name + '_impl', head + '\nthe runner ended with %s after %d lines%s' % (ist, len(il), ': the call `%s` of the implementation does not return normally'
+                      % lines[min(len(il), len(lines) - 1)][:100] if concrete else ''), lines[:len(il) + 1] if concrete else lines, found=concrete)
         res['ok'] = False
         return res
     if mst != 'ok':
